@@ -591,8 +591,7 @@ inline constexpr void Conversion<Unit::ElectricCharge, Unit::ElectricCharge::Nan
 }
 
 template <typename NumericType>
-inline const std::map<Unit::ElectricCharge,
-                      std::function<void(NumericType* values, const std::size_t size)>>
+inline const ConversionTable<Unit::ElectricCharge, NumericType>
     MapOfConversionsFromStandard<Unit::ElectricCharge, NumericType>{
       {Unit::ElectricCharge::Coulomb,
        Conversions<Unit::ElectricCharge, Unit::ElectricCharge::Coulomb>::FromStandard<NumericType>},
@@ -671,8 +670,7 @@ inline const std::map<Unit::ElectricCharge,
 };
 
 template <typename NumericType>
-inline const std::map<Unit::ElectricCharge,
-                      std::function<void(NumericType* const values, const std::size_t size)>>
+inline const ConversionTable<Unit::ElectricCharge, NumericType>
     MapOfConversionsToStandard<Unit::ElectricCharge, NumericType>{
       {Unit::ElectricCharge::Coulomb,
        Conversions<Unit::ElectricCharge, Unit::ElectricCharge::Coulomb>::ToStandard<NumericType>},
